@@ -6,7 +6,7 @@ PROFILES = [('stld', 3), ('ssamem', 3), ('evictlf', 0.5), ('touched', 2), ('disj
 
 def run(ctx):
     return syscheck.run(
-        ctx, 'C10', ['C10', 'C10_order', 'C12_mvp70', 'C12_mvp80'], PROFILES, S.PIPELINED, n_quick=80, n_thorough=1500,
+        ctx, 'C10', ['C10', 'C10_order', 'C12_mvp70', 'C12_mvp80', 'C05_mvp4s', 'C05_mvp5s'], PROFILES, S.PIPELINED, n_quick=80, n_thorough=1500,
         assumptions=['a reorder of conflicting accesses is observed as a wrong loaded value (register) or a wrong final memory byte'],
         text_rule='store->load, load->store and store->store pairs to the same byte / word / line at distance 0..3 with independent address registers, hits and misses mixed; '
                   'MVP-4..8 x parallelism 1..4 inside the calibrated domains; non-trivial = at least one such pair (tags stld-*) or a store and a load to one line')
